@@ -78,8 +78,12 @@ def families(tier, seed):
         shf = Shape(sys={k: 'bool' for k in ('i0', 'i1', 'o0', 'o1')}, name='2 in 2 out')
         out.append(dict(name=f'back-end sweep [{tag}] make_functions',
                         run=harness.sweep(cfn.h_make_functions, shf, dict(inputs=['i0', 'i1'], vrs=['o0', 'o1']), 'context', seed, 4 * ns, be), label='bounded'))
+    from contracts import gr1_monitor as gm
     for be in ('cudd', 'autoref'):
         out.append(dict(name=f'copied automaton keeps its own operator definitions [{be}]', run=hc.copy_isolation(be), label='bounded'))
+        for kind in ('streett', 'rabin'):
+            out.append(dict(name=f'synthesizing again in the same context ({kind}: games, modes and the variable partition replaced) [{be}]',
+                            run=gm.resolve_same_automaton(kind, seed + 7, 6 if tier == 'quick' else 80, be), label='bounded'))
     nseq = 16 if tier == 'quick' else 200
     for be in ('cudd', 'autoref'):
         out.append(dict(name=f'history sequences [{be}]', run=hc.history_sequences(seed, nseq, be), label='bounded'))
